@@ -278,6 +278,7 @@ func runC13(p *core.Prog, r *core.Result) {
 		"R13.2 a dry run reports what a real run reports: it marks the visited target as assumed to change in this run (unconditionally; the dependency loop reads the mark) and reports success with changed=true, and every Target.evaluate implementation reports changed=true on success",
 		"R13.5 a dry run leaves nothing behind in memory that a later run reads: it does not write runTarget.changed (which real runs read and which is never reset), its own mark carries the number of the run, and that number advances before every run - so on a Project used for several runs (REPL, run() builtin, watch) a dry run does not change what the next real build does",
 		"R13.6 evaluating a target does not write into the record it was loaded with: the map that collects the dependencies' current stamps is created by the evaluation (make / a literal on every path), and no map update or delete in Evaluate's dependency code has a map taken from Target.info() as its subject - the record's Dependencies map is shared with the target's in-memory record, so updating it in place makes a dry run erase the evidence (a stale recorded stamp) that the next run on the same Project needs to find the target out of date",
+		"R13.7 the dry run and the real build decide on the same project: every command of cmd/dawn that goes on to Project.Run / Project.Watch loads the project with the index argument constantly false (never with the dry-run flag): targets loaded from the saved index know nothing of edited target bodies, always=True, generated sources or flag arguments, so a dry run decided on them does not predict the real build",
 		"R13.3 the dry-run flag is assigned on every path of RunOptions.apply (it cannot leak into the next run)",
 		"R13.4 'evaluating' is reported before the dry-run test",
 	}
@@ -336,6 +337,7 @@ func runC13(p *core.Prog, r *core.Result) {
 
 	// R13.6 the loaded record is not written through
 	checkRecordNotWrittenThrough(p, r, m, "R13.6")
+	checkBuildLoadsBuildFiles(p, r, "R13.7")
 
 	// R13.2
 	impls := targetImpls(p, "evaluate")
@@ -562,6 +564,7 @@ func runC03(p *core.Prog, r *core.Result) {
 		"R3.7 loading a target writes back exactly the record it read: a load (dry run, partial build, crash before the body) cannot erase a pending re-run",
 		"R3.9 what Evaluate records is what the target reports from then on: the Target interface has a method through which every implementation that keeps its record in a field replaces that field, and every record write of Evaluate hands the very record it wrote to that method - otherwise a Project that is used for several runs (run() in the REPL) decides the next run from the record read at load: a target whose body failed in a forced run is up to date again, and the build succeeds",
 		"R3.10 what depends on a target that executed in this build is re-executed, whatever stamp the execution ended with: a dependency counts as up to date only if it has a recorded stamp, did not execute in this build (the changed flag, set by every execution and never reset) and its stamp equals the recorded one (C01's R1.2 and R1.10) - a target interrupted inside its body, or failed, whose input is then reverted, lands on its earlier stamp; only the flag makes it and its dependents run again",
+		"R3.11 a body whose command did not complete fails: for every (*exec.Cmd).Run / Wait / Output / CombinedOutput in the module, no return on the failing edge of that call reports success, unless the failure is handed on as (*exec.ExitError).ExitCode() and every caller compares that code with zero by == / != only (ExitCode() is -1 for a process killed by a signal: `code > 0` records a target whose command was killed half-way as up to date on its partial output)",
 		"R3.8 the stamp a re-executed target records depends on the stamps of the dependencies this evaluation used (not those of its previous record): a build that dies after the target's record was written and before its dependents' records were leaves the dependents out of date (shared with C01 R1.3)",
 	}
 	r.NotDecided = []string{"kernel-level atomicity/durability of rename (no fsync: the crash model is process death, not power loss)", "convergence of outputs after recovery"}
@@ -929,6 +932,9 @@ func runC03(p *core.Prog, r *core.Result) {
 		}
 		r.Floor("R3.10", n, 3, "obligations on the dependency verdict and the changed flag")
 	}
+
+	// ---- R3.11 a command that did not complete fails the body
+	checkCommandFailureFailsBody(p, r, "R3.11")
 
 	// ---- R3.9 the record written becomes the record reported
 	checkRecordRefreshed(p, r, m, "R3.9")
